@@ -5,7 +5,7 @@ from __future__ import annotations
 import ast
 
 from sa import rx
-from sa.core import AnalysisError, call_name, const, text
+from sa.core import resolve_collection, AnalysisError, call_name, const, text
 
 from .tables import TokTables, class_regex
 
@@ -51,14 +51,19 @@ def raw_allowed(nfa_node):
     return cs
 
 
-def writer_escapes(fn):
-    """{char: replacement} from the chain of .replace(A, B) calls in helper.string."""
+def writer_escapes(m, fn, chars):
+    """{char: replacement} of helper.string, read off its syntax tree by evaluating it on
+    x<char>x for every candidate character (the function only replaces substrings, so the
+    image of a character between two neutral ones is its replacement)."""
+    from sa.absint import Evaluator, Raised
+
     out = {}
-    for c in ast.walk(fn):
-        if isinstance(c, ast.Call) and isinstance(c.func, ast.Attribute) and c.func.attr == 'replace' and len(c.args) == 2:
-            a, b = const(c.args[0]), const(c.args[1])
-            if isinstance(a, str) and isinstance(b, str) and len(a) == 1:
-                out[a] = b
+    for ch in chars:
+        got = Evaluator(fn, module=m).run(value='x' + ch + 'x')
+        if isinstance(got, Raised) or not isinstance(got, str) or len(got) < 4 or not (got[1] == 'x' and got[-2] == 'x'):
+            raise AnalysisError(f'helper.string: unexpected result {got!r} for {ch!r}')
+        if got[2:-2] != ch:
+            out[ch] = got[2:-2]
     return out
 
 
@@ -70,11 +75,11 @@ def r03a(chk, rid='R03.a'):
     forbidden = allowed.negate()
     m = chk.repo.mod(HELPER)
     fn = m.get('string')
-    esc = writer_escapes(fn)
-    if len(esc) < 3:
-        raise AnalysisError('helper.string: replace chain not recognised')
-    quote = [r for r in ast.walk(fn) if isinstance(r, ast.Return)]
-    chk.ob(rid, HELPER, 'string', 'the writer always uses double quotes (the reader side is string1)', len(quote) == 1 and text(quote[0].value) == '\'"%s"\' % value', text(quote[0].value) if quote else '')
+    from sa.absint import Evaluator
+
+    esc = writer_escapes(m, fn, forbidden.chars(limit=40) + ["'"])
+    plain = Evaluator(fn, module=m).run(value='x')
+    chk.ob(rid, HELPER, 'string', 'the writer always uses double quotes (the reader side is string1)', plain == '"x"', f"string('x') gives {plain!r}")
     names = {'\n': 'line feed', '\r': 'carriage return', '\f': 'form feed', '\\': 'backslash', '"': 'double quote'}
     for ch in forbidden.chars(limit=40):
         ok = ch in esc
@@ -130,10 +135,12 @@ def r03c(chk, rid='R03.c'):
     chk.rule(rid, 'decode/encode symmetry by token kind: ' + DECODED_NEEDED_REASON + '; kinds whose production can match a non-ASCII character (decided on the automata) must be in the tokenizer\'s unicodesub list; the serializer re-escapes exactly STRING and URI values, the remaining decoded kinds are the known "identifier escapes are not re-encoded" finding, which must not grow')
     tt = TokTables(chk.repo)
     fn = chk.repo.fn(TOK, 'Tokenizer.tokenize')
-    lists = [n for n in ast.walk(fn) if isinstance(n, ast.Compare) and isinstance(n.ops[0], ast.In) and text(n.left) == 'name' and isinstance(n.comparators[0], ast.Tuple) and len(n.comparators[0].elts) >= 6]
+    tm = chk.repo.mod(TOK)
+    lists = [n for n in ast.walk(fn) if isinstance(n, ast.Compare) and isinstance(n.ops[0], ast.In) and text(n.left) == 'name'
+             and len(resolve_collection(tm, fn, n.comparators[0]) or []) >= 6]
     if len(lists) != 1:
         raise AnalysisError('Tokenizer.tokenize: list of decoded token kinds not found')
-    decoded = {const(e) for e in lists[0].comparators[0].elts}
+    decoded = {const(e) for e in resolve_collection(tm, fn, lists[0].comparators[0])}
     # the branch must apply unicodesub
     par = chk.repo.mod(TOK).parents[lists[0]]
     ok = isinstance(par, ast.If) and any('self.unicodesub(_repl, found)' in text(s) for s in par.body)
